@@ -8,6 +8,11 @@ ALL = ["C%02d" % i for i in range(1, 20)]
 
 # property -> (category, technique, level text, level note, design ref)
 CLAIMED = {
+    "C16": ("exploration",
+            "randomly generated concurrent programs (rapid) over the public API under the Go race detector, with a hang oracle (real clock, in-memory network)",
+            "rapid-generated programs on a real server and 1..3 real clients: 2..16 goroutines x 5..40 operations over ServerSocket (22 kinds), ClientSocket (16), Namespace/Server/Adapter (16), Manager (6), a third of them performed inside event handlers or ack callbacks of the addressed side, more from connection/disconnecting/disconnect/connect handlers, GOMAXPROCS in {1,2,4,16}, yields at the hook sites. The harness is built with -race; the oracle is the per-program delta of runtime.RaceErrors (report read from the GORACE log and attributed to the repository by the owner of each conflicting access), plus 'every phase returns' (program, an epilogue that uses every socket, manager and the namespace again, teardown), decided by two goroutine dumps 10 s apart that show the same goroutines parked in repository frames. Quick 240 programs, thorough 12 000. Sampling of schedules: a pass means no race / hang in the programs run, nothing more.",
+            "The instrumented-mutex build (tag sio_deadlock) is not used as an oracle: a potential lock-order inversion is not a deadlock, and reporting it would raise false alarms; hangs are decided by the watchdog only.",
+            "DESIGN.md §3 C16"),
     "C01": ("exploration",
             "property-based testing (rapid) on a virtual-time rig (real server + real Manager over an in-memory network), exactly-once/intact oracle over token-carrying events",
             "rapid scenarios inside a testing/synctest bubble: transport {polling, websocket, upgrade with emits falling into it}, recovery off/on, MaxBufferSize {64 KiB, 256 KiB, default}, 1..3 clients, 1..24 events of 25 schemas (16 Go argument shapes with Binary leaves, look-alike event names, attachments and strings of boundary sizes around 32 KiB / 64 KiB) in both directions from 1..4 goroutines per side. Oracle after quiescence + 2 heartbeat periods: per (receiver socket, event) the multiset of tokens equals what was emitted, arguments tree-equal, no error handler fired, no connection closed. Held on everything generated; sampling, not exhaustive.",
